@@ -25,6 +25,8 @@ def unhealthy(table, e):
         return True
     if fn == "dens" and not table["z"]:
         return True
+    if fn == "needpos" and not (table["lat"] and table["lon"]):
+        return True
     if fn in ("roc", "flat", "att", "clim", "speed") and not table.get("hastime", True):
         return True
     if fn == "spike" and p["method"] not in ("average", "differential"):
@@ -56,6 +58,7 @@ POOL_H = [
     lambda r: {"stream": "b", "fn": "probe", "p": {"none": 0}},
     lambda r: {"stream": "a", "fn": "probe", "p": {"none": 0}},
     lambda r: {"stream": "b", "fn": "probe2", "p": {"none": 0}},
+    lambda r: {"stream": "b", "fn": "needpos", "p": {"none": 0}},      # needs positions: cannot run on a table without
     lambda r: {"stream": "b", "fn": "valid", "p": {"lo": r.choice([NA, 1, 2]), "hi": r.choice([NA, 3, 6]), "sincl": r.random() < 0.5,
                                                   "eincl": r.random() < 0.5, "kind": "num"}},
 ]
@@ -102,6 +105,8 @@ def rand_table(r, nmax):
             if r.random() < 0.7:
                 for i in r.sample(range(n), min(n, r.choice([1, 1, 2]))):
                     tb["data"][k][i] = NA
+    if tb["z"] and r.random() < 0.12:
+        tb["data"]["z"] = list(tb["z"])     # QC configured on the depth column itself: stream id = axis column
     if r.random() < 0.12:
         tb["hastime"] = False        # the stream gets no time array: no windows possible
     elif n >= 2 and r.random() < 0.3:
@@ -170,6 +175,12 @@ def rand_config(r, tb, faults):
             keys.add(k)
             ents.append(e)
         cfg.append({"win": w, "entries": ents})
+    if "z" in tb["data"] and cfg:
+        c = r.choice(cfg)
+        for e in ({"stream": "z", "fn": "gross", "p": {"fail": [0, r.randint(3, 6)], "susp": []}},
+                  {"stream": "z", "fn": "spike", "p": {"st": [1, 1], "ft": [3, 1], "method": "average"}}):
+            if r.random() < 0.7:
+                c["entries"].insert(r.randint(0, len(c["entries"])), e)
     if len(cfg) >= 2 and r.random() < 0.2:
         # the first window once more at the end, with other entries (W1, W2, W1): contexts with the same window are one
         # context, wherever they stand in the list
@@ -341,6 +352,11 @@ def check(ctx):
         if prop == "C05" and n % 5 == 3:
             # the same stream object and Config object run a second time
             fes = [fes[0] + "+again"] + fes[1:] if ctx.quick else fes + [f + "+again" for f in fes]
+        if prop in ("C05", "C18") and n % 5 == 4:
+            # the Config object has already been run on a table that has every axis column
+            multi = [f for f in fes if "+" not in f and f not in ("qcconfig", "qcconfig_bare", "numpy_arr")]
+            if multi:
+                fes = [f + "+reuse" if f == multi[0] else f for f in fes] if ctx.quick else fes + [f + "+reuse" for f in multi]
         for fe in fes:
             form = forms[(n + len(fe)) % 3]
             add_run(tb, cfg, fe, "base", form, max_orders)
@@ -353,6 +369,35 @@ def check(ctx):
                 if fe == "numpy_arr" and not any(c["entries"] for c in hcfg):
                     continue        # a bare array needs a stream id from the configuration: nothing healthy is left to name one
                 add_run(tb, hcfg, fe, "healthy_of", form, 0)
+    if prop in ("C05", "C18"):
+        # datasets whose variables sit on two dimensions (XarrayStream looks the inputs up per variable): stream "b" on a
+        # dimension without time / depth / position next to stream "a" that has them all, one context without a window
+        g2 = _r.Random(ctx.seed + 11)
+        nsplit, tries = 0, 0
+        while nsplit < ctx.pick(80, 500) and tries < 20000:
+            tries += 1
+            tb = rand_table(g2, ctx.pick(8, 14))
+            if not tb.get("hastime", True) or not increasing(tb) or "z" in tb["data"]:
+                continue
+            ents, keys = [], set()
+            for _ in range(g2.randint(2, 5)):
+                e = g2.choice(POOL_F)(g2) if (prop == "C18" and g2.random() < 0.3) else g2.choice(POOL_H)(g2)
+                if g2.random() < 0.3:
+                    e = {"stream": "b", "fn": "needpos", "p": {"none": 0}}
+                if (e["stream"], e["fn"]) not in keys:
+                    keys.add((e["stream"], e["fn"]))
+                    ents.append(e)
+            if not any(e["stream"] == "b" for e in ents) or not any(e["stream"] == "a" for e in ents):
+                continue
+            for evs in pipe_exec.run_split(tb, [{"win": [NA, NA], "entries": ents}], wd, form=forms[nsplit % 3]):
+                runs += 1
+                grp += 1
+                for e in evs:
+                    e["id"], e["rid"], e["rel"], e["grp"] = len(events) + 1, runs, {"kind": "base"}, grp
+                    e.pop("msg", None)
+                    events.append(e)
+            nsplit += 1
+        ctx.cov["runs_on_datasets_with_two_dimensions"] = nsplit
     if prop == "C06":
         # spec -> code: behaviours generated by TLC (-simulate): the collect order of each behaviour (complete, or a
         # prefix when the behaviour was cut at the depth bound) is replayed through the real collect_results
@@ -372,6 +417,7 @@ def check(ctx):
     ctx.cov["real_runs"] = runs
     ctx.cov["frontends"] = fe_all
     ctx.cov["runs_with_input_named_parameters_in_config"] = sum(1 for e in events if e["ev"] == "load" and e["frontend"].endswith("+stale"))
+    ctx.cov["runs_of_a_config_object_used_before_on_a_richer_table"] = sum(1 for e in events if e["ev"] == "load" and e["frontend"].endswith("+reuse"))
     ctx.cov["second_runs_of_the_same_stream_and_config_objects"] = sum(1 for e in events if e["ev"] == "load" and e["frontend"].endswith("+again"))
     rejects = core.validate_parallel(ctx, events, "Trace_Pipeline", "pipe", session_key="grp", chunk=1500)
     by_id = {e["id"]: e for e in events}
@@ -391,8 +437,9 @@ def check(ctx):
         if prop == "C18" and cl == "c18_spec" and e["rid"] in c05_runs:
             mine = False     # the accumulators differ from the spec because a yield was wrong, not because of a fault
         # a run that dies, or loses / corrupts the healthy results, while unrunnable entries are configured: C18
+        # (c05_ran: an entry that cannot run produced a result, or a healthy one produced none)
         if prop == "C18" and has_fault(ld["table"], ld["config"]) and (
-                cl in ("c05_total", "c05_missing_yield") or cl.startswith("c06_")):
+                cl in ("c05_total", "c05_missing_yield", "c05_ran") or cl.startswith("c06_")):
             mine = True     # ... including the collected data / axis arrays of the healthy results
         if mine:
             owned.append((dict(e, _load=ld), cl))
